@@ -10,6 +10,11 @@ include!(concat!(env!("OUT_DIR"), "/gram_modules.rs"));
 
 #[macro_use]
 mod infra;
+mod alloc_count;
+
+#[global_allocator]
+static GLOBAL: alloc_count::Counting = alloc_count::Counting;
+
 mod bind;
 mod enumerate;
 mod findings;
